@@ -274,7 +274,7 @@ EvDec ==
                \* C16: the checksum the decoder exposes is the Adler-32 of all output produced so far
                \o Iff("decoder_adler_is_adler_of_output_so_far",
                       K.v = "done" /\ HasF(e, "adler") /\ e.flags % 2 = 1 /\ (e.flags \div 64) % 2 = 0
-                        /\ e.status \in {"Done", "NeedsMoreInput", "HasMoreOutput"}
+                        /\ e.status \in {"Done", "NeedsMoreInput", "HasMoreOutput", "FailedCannotMakeProgress"}
                       => e.adler = AdlerSeq(d.dig, e.data))
      IN /\ Report(fails, 19)
         /\ ds' = [ds EXCEPT ![e.obj] = DecNext(d, e, AdlerSeq(d.dig, e.data))]
